@@ -21,7 +21,8 @@ RULE = ("cases from rng(seed, 11, 0, i), mode = i mod 5: (0) SE(2) chain and (1)
         "L = 400 (quick) / up to 10^4 (thorough), operands hostile (constructor angles sometimes preceded by the same value passed as float32/float16/int; angles to 1e6, both sides of +-pi, nextafter(pi); quaternions w<0, w=0, 180 deg); (2) optimizer runs of 1..50 "
         "iterations on SE(2)/SE(3) graphs (converging and diverging), driven iteration by iteration (checked after each) or as one call (checked at the end); (3) loader lines with hostile angles / non-unit measurement quaternions; "
         "(4) normalize() on quaternions of norm 1e-3..1e3, incl. exactly / almost unit ones with w<0. distinct = fingerprint of the chain's operand stream / graph; non-trivial = chain with >= 50 operations "
-        "or an optimizer run with >= 1 completed iteration or a loader/normalize case with a non-canonical input.")
+        "or an optimizer run with >= 1 completed iteration or a loader/normalize case with a non-canonical input."
+        " later additions: identity() objects written to by their owner inside the chains.")
 REQ = ["eval:se2-angle-in-range", "eval:se2-angle-congruent", "eval:se3-unit-norm", "eval:normalize-postcondition", "eval:optimizer-vertex-invariant", "eval:loader-angle", "mode:0", "mode:1",
        "mode:2", "mode:3", "mode:4", "class:angle_huge", "class:angle_nearpi", "class:op:boxplus", "class:op:inverse", "class:op:sub", "class:diverging_run", "class:single_call_run_10+_iterations", "class:iteration_by_iteration_run", "class:normalize_input:unit_wneg",
        "class:normalize_input:almost_unit_wneg", "class:normalize_again_after_in_place_write", "class:same_value_earlier_in_narrower_type", "class:identity_object_written_by_its_owner"]
